@@ -5,12 +5,14 @@ package c04
 import (
 	"encoding/json"
 	"fmt"
+	"net/http"
 	"net/http/httptest"
 	"sort"
 	"testing"
 	"testing/synctest"
 	"time"
 
+	"github.com/0xReLogic/Helios/internal/adminapi"
 	"github.com/0xReLogic/Helios/internal/loadbalancer"
 	"github.com/0xReLogic/Helios/verifharness/lab"
 	"pgregory.net/rapid"
@@ -39,21 +41,24 @@ type bstate struct {
 }
 
 type world struct {
-	lb       *loadbalancer.LoadBalancer
-	fn       *lab.FakeNet
-	c        hcfg
-	W        time.Duration
-	t0       time.Time
-	b        map[string]*bstate // by host
-	absorbed int
-	nEject   int
-	nAfter   int // requests issued after some window had completely elapsed
-	nProbeEj int
-	nLate    int // probes released after an ejection that happened while they were in flight
-	hist     []string
+	lb         *loadbalancer.LoadBalancer
+	fn         *lab.FakeNet
+	c          hcfg
+	W          time.Duration
+	t0         time.Time
+	b          map[string]*bstate // by host
+	absorbed   int
+	nEject     int
+	nAfter     int // requests issued after some window had completely elapsed
+	nProbeEj   int
+	nLate      int // probes released after an ejection that happened while they were in flight
+	hist       []string
 	beh        map[string]lab.Behaviour
 	recoveries int
 	holds      []heldReq
+	healthH    http.HandlerFunc
+	metricsH   http.HandlerFunc
+	adminH     http.Handler
 	nLateResp  int // responses of long-running requests that arrived after their backend's state had changed
 }
 
@@ -136,9 +141,36 @@ func (w *world) reported(i int) (r reports, err string) {
 	if !found {
 		return r, "backend missing from ListBackends"
 	}
-	mc := w.lb.GetMetricsCollector()
+	// the endpoints are mounted once per balancer, as a server mounts them: whatever a handler keeps
+	// between two reads is part of what is observed
+	if w.healthH == nil {
+		mc := w.lb.GetMetricsCollector()
+		w.healthH, w.metricsH = mc.HealthHandler(), mc.MetricsHandler()
+		acfg := lab.BaseConfig(w.c.Strategy, lab.Ones(w.c.N))
+		acfg.AdminAPI.Enabled, acfg.AdminAPI.Port = true, 9091
+		w.adminH = adminapi.NewMux(w.lb, acfg, mc)
+	}
+	// the admin API's own listing must agree with the balancer's
+	{
+		arec := httptest.NewRecorder()
+		areq := httptest.NewRequest("GET", "/v1/backends", nil)
+		areq.RemoteAddr = "127.0.0.1:4999"
+		w.adminH.ServeHTTP(arec, areq)
+		var al []struct {
+			Name    string `json:"name"`
+			Healthy bool   `json:"healthy"`
+		}
+		if e := json.Unmarshal(arec.Body.Bytes(), &al); e != nil {
+			return r, "/v1/backends is not JSON: " + e.Error()
+		}
+		for _, b := range al {
+			if b.Name == name && b.Healthy && !r.list {
+				r.list = true // reported healthy by the admin endpoint although the balancer's listing says unhealthy
+			}
+		}
+	}
 	rec := httptest.NewRecorder()
-	mc.HealthHandler()(rec, httptest.NewRequest("GET", "/health", nil))
+	w.healthH(rec, httptest.NewRequest("GET", "/health", nil))
 	var h struct {
 		Backends map[string]struct {
 			Healthy bool `json:"healthy"`
@@ -153,7 +185,7 @@ func (w *world) reported(i int) (r reports, err string) {
 	}
 	r.health = hb.Healthy
 	rec = httptest.NewRecorder()
-	mc.MetricsHandler()(rec, httptest.NewRequest("GET", "/metrics", nil))
+	w.metricsH(rec, httptest.NewRequest("GET", "/metrics", nil))
 	var mm struct {
 		BackendMetrics map[string]struct {
 			IsHealthy bool `json:"is_healthy"`
@@ -286,7 +318,9 @@ func (w *world) observe(host string, at time.Time, status int) string {
 
 func (w *world) nameOf(host string) string { return lab.BackendName(indexOfHost(host, w.c.N)) }
 
-func clientAddr(k int) string { return fmt.Sprintf("10.%d.%d.%d:4%03d", k%5, (k/5)%250, (k*7)%250, k%1000) }
+func clientAddr(k int) string {
+	return fmt.Sprintf("10.%d.%d.%d:4%03d", k%5, (k/5)%250, (k*7)%250, k%1000)
+}
 
 // request issues one monitored client request.
 func (w *world) request(client string) (servedHost string, viol string) {
